@@ -40,11 +40,11 @@ func (g *gen) pruneScript() []Op {
 			task++
 			ops = append(ops, Op{"NewTask", M{"kind": "download", "summary": "t 2"}}) // stays unlinked
 		}
-		if r.Intn(5) == 0 {
+		if r.Intn(3) == 0 {
 			ops = append(ops, Op{"ChangeSet", M{"c": c, "k": "k1", "v": g.picks([]string{"true", "true", "false"})}})
 		}
 	}
-	if r.Intn(3) == 0 {
+	if r.Intn(2) == 0 {
 		ops = append(ops, Op{"Register", M{"k": "k1"}})
 	}
 	for _, c := range r.Perm(k) {
@@ -57,7 +57,7 @@ func (g *gen) pruneScript() []Op {
 			step(25)
 		}
 		ops = append(ops, Op{"Tick", M{"h": hour}})
-		finish := r.Intn(10) < 7
+		finish := r.Intn(10) < 6
 		for i, t := range ts {
 			switch {
 			case finish:
@@ -175,6 +175,11 @@ func (g *gen) pruneOK() bool {
 	for _, c := range g.h.st.Changes() {
 		if !c.ReadyTime().IsZero() {
 			continue
+		}
+		if c.IsReady() && len(c.Tasks()) > 0 {
+			// marked ready without a ready time (an empty change after a reload) and given tasks afterwards:
+			// any readiness flip during an abort trips the "became unready" assertion; not a state snapd builds
+			return false
 		}
 		staysUnready, lastDone, firstHold, single := false, -1, -1, true
 		for i, t := range c.Tasks() {
